@@ -50,6 +50,7 @@ var (
 	cSubBand      = simrt.RegisterCounter("op_sub_band_configuration")
 	cSharedBand   = simrt.RegisterCounter("op_shared_band_with_concurrent_planners")
 	cDeep         = simrt.RegisterCounter("op_long_history_plan_grown_to_several_blocks")
+	cNilSet       = simrt.RegisterCounter("probe_empty_device_set_as_nil_slice")
 	cRevisit      = simrt.RegisterCounter("op_device_set_planned_again_after_many_others")
 	cReuseBuf     = simrt.RegisterCounter("fault_caller_reuses_its_device_list_buffer")
 	cScribble     = simrt.RegisterCounter("fault_caller_overwrites_a_plan_it_was_handed")
@@ -342,7 +343,12 @@ func (w *world) judge(dev []int, label string) []lorawan.LinkADRReqPayload {
 	// loop with a scratch slice), and the plan handed out by the previous call
 	// has been scribbled over by then. The band must have kept neither.
 	arg := dev
-	if !w.shared && len(dev) <= len(w.devBuf) {
+	if len(dev) == 0 && w.nJudge%2 == 0 {
+		// a device with no channel at all: the empty set as a nil slice (what
+		// the band's own apply function hands back for such a device)
+		arg = nil
+		simrt.Count(cNilSet)
+	} else if !w.shared && len(dev) <= len(w.devBuf) {
 		simrt.Count(cReuseBuf)
 		arg = w.devBuf[:len(dev)]
 		ownerWriteCopy(arg, dev)
